@@ -196,6 +196,8 @@ pub async fn scenario(events: Vec<Ev>) -> Obs {
     // a peer detach on the sender that the application has not yet had a chance to answer
     let mut peer_detached_s: Option<(bool, Option<definitions::Error>, usize)> = None;
     let mut refuse_next_attach = false;
+    // an earlier call on the link (send) has already returned the error carried by the peer's detach
+    let mut peer_detach_error_delivered = false;
     let mut sent_msgs = 0usize;
     let mut call_results: Vec<String> = vec![];
     obs.state_keys.push(h64(&0u8));
@@ -289,7 +291,11 @@ pub async fn scenario(events: Vec<Ev>) -> Obs {
                     }
                     Some(Err(_)) => {}
                     None => {
-                        if peer_ended.is_none() {
+                        // (an attach that never reached the wire - e.g. on a session whose end the peer withholds -
+                        // is outside the statement: only an attach the peer answered has to return)
+                        let answered = lh.is_some()
+                            && c.peer.trace[mark..].iter().any(|w| w.dir == Dirn::FromPeer && matches!(&w.body, Body::Perf(Performative::Attach(_))));
+                        if peer_ended.is_none() && answered {
                             obs.fails.push(("attach-hangs".into(), format!("attach() did not return within {:?} although the peer answered", h)));
                         }
                     }
@@ -303,7 +309,13 @@ pub async fn scenario(events: Vec<Ev>) -> Obs {
                     answer_due = Some((*peer_closed, *at, hd, "send"));
                 }
                 match r {
-                    Some(_) => {}
+                    Some(res) => {
+                        if let (Err(e), Some((_, Some(pe), _))) = (&res, &peer_detached_s) {
+                            if format!("{:?}", e).contains(&format!("{:?}", pe.condition)) {
+                                peer_detach_error_delivered = true;
+                            }
+                        }
+                    }
                     None => {
                         if peer_detached_s.is_some() || peer_ended.is_some() {
                             obs.fails.push(("send-hangs-after-remote-detach".into(), "send() never returned although the peer had detached the link / ended the session".into()));
@@ -343,7 +355,10 @@ pub async fn scenario(events: Vec<Ev>) -> Obs {
                         session_over = true;
                     }
                     _ => {
+                        // (dropping the handle detaches the link: from here on the peer has nothing to detach)
                         sender = None;
+                        snd_handle = None;
+                        peer_detached_s = None;
                     }
                 }
             }
@@ -397,7 +412,7 @@ pub async fn scenario(events: Vec<Ev>) -> Obs {
                             }
                             if let (Ok(()), Some(d)) = (r, &peer_detach) {
                                 if let Some(e) = &d.error {
-                                    if is_sender && peer_detached_s.as_ref().map(|p| p.1.is_some()).unwrap_or(false) {
+                                    if is_sender && peer_detached_s.as_ref().map(|p| p.1.is_some()).unwrap_or(false) && !peer_detach_error_delivered {
                                         obs.fails.push((
                                             format!("peer-detach-error-not-reported ({which})"),
                                             format!("the peer detached with error {:?} but {which}() returned Ok", e.condition),
@@ -421,6 +436,7 @@ pub async fn scenario(events: Vec<Ev>) -> Obs {
                         answer_due = Some((*peer_closed, *at, hd, which));
                     }
                     peer_detached_s = None;
+                    peer_detach_error_delivered = false;
                     snd_handle = None;
                 } else {
                     rcv_handle = None;
@@ -512,7 +528,10 @@ pub async fn scenario(events: Vec<Ev>) -> Obs {
         obs.executed = i + 1;
         // ---------------- obligations at this quiescent state
         if let Some((peer_closed, at, hd, which)) = answer_due {
-            if peer_ended.is_none() {
+            // (once the library has sent its end the session's links are gone with it: no detach may follow)
+            let lib_ended_first = c.peer.trace[..].iter().any(|w| w.dir == Dirn::FromLib && matches!(&w.body, Body::Perf(Performative::End(_))));
+            let answered_before_end = lib_detach(&c.peer.trace, at, hd).is_some();
+            if peer_ended.is_none() && (!lib_ended_first || answered_before_end) {
                 match lib_detach(&c.peer.trace, at, hd) {
                     None => obs.fails.push((
                         format!("peer-detach-unanswered (after {which})"),
